@@ -497,3 +497,12 @@ def to_iter_range(c):
     c.call(VRange(c.int("start").t, c.int("stop").t), ctx, self_val=self)
     c.raises("LiquidError")
     c.replay("code", code=REPLAY_HUGE_RANGE)
+
+
+# ---- the extends tag (outside the generic node lemma: it builds closure tables): with the chain
+# ---- walk and the base template's render as arbitrary callees, only Liquid errors and the
+# ---- StopRender interrupt leave it (C18's harness)
+from contracts.C18 import extends_node_contract  # noqa: E402
+
+for _sfx in ("", "_async"):
+    extends_node_contract("C02", _sfx, failing_callees=True)
